@@ -763,10 +763,12 @@ def main():
         nvr = emit_version(outdir)
         from translate_copy import emit_copy  # noqa
         ncp = emit_copy(outdir)
+        from translate_report import emit_report  # noqa
+        nrp = emit_report(outdir)
     except TranslateError as e:
         print(str(e))
         sys.exit(2)
-    print(f"translate: {nr} parser rules, {nc} instruction classes, {nl} leaf functions, {nk} key/index classification functions, {ns} wrapper functions, {na} condition-combination functions, {ng} global-graph/neighbourhood functions, {nsr} path-search functions, {nsv} worklist-solver functions, {nct} constraint-initialisation functions, {nrx} regex-engine functions, {ngr} group-verdict functions, {nrn} orchestration functions, {ncf} CFG-construction functions, {nst} operand-reconstruction functions, {nfn} function-construction functions, {nln} line-parser functions, {njt} joint-pass function, {ncs} constant-resolution functions, {ndt} detector functions, {nout} exporter functions, {nvr} version/mode/cost functions, {ncp} main-CFG-copy functions -> {outdir}")
+    print(f"translate: {nr} parser rules, {nc} instruction classes, {nl} leaf functions, {nk} key/index classification functions, {ns} wrapper functions, {na} condition-combination functions, {ng} global-graph/neighbourhood functions, {nsr} path-search functions, {nsv} worklist-solver functions, {nct} constraint-initialisation functions, {nrx} regex-engine functions, {ngr} group-verdict functions, {nrn} orchestration functions, {ncf} CFG-construction functions, {nst} operand-reconstruction functions, {nfn} function-construction functions, {nln} line-parser functions, {njt} joint-pass function, {ncs} constant-resolution functions, {ndt} detector functions, {nout} exporter functions, {nvr} version/mode/cost functions, {ncp} main-CFG-copy functions, {nrp} report functions -> {outdir}")
 
 
 if __name__ == "__main__":
